@@ -1,6 +1,6 @@
 use alloc::vec::Vec;
 
-use hashbrown::HashMap;
+use hashbrown::{HashMap, HashSet};
 use p3_field::Field;
 
 use super::analysis::{IndexedDef, OpDef};
@@ -22,16 +22,25 @@ pub(super) struct MulAddFusion<F> {
     backwards_computed: HashMap<WitnessId, usize>,
     /// Number of ops that write each witness as an output (connect can alias several).
     out_writers: HashMap<WitnessId, usize>,
+    /// Witnesses set from outside the op list (private inputs): defined before every op.
+    external: HashSet<WitnessId>,
 }
 
 impl<F: Field> MulAddFusion<F> {
     /// Scans `ops` to build use-counts, definitions, and backwards-op tracking.
+    #[cfg(test)]
     pub(super) fn new(ops: &[Op<F>]) -> Self {
+        Self::with_external_inputs(ops, &[])
+    }
+
+    /// Like `new`, with the witnesses that are set from outside the op list (private inputs).
+    pub(super) fn with_external_inputs(ops: &[Op<F>], external: &[WitnessId]) -> Self {
         let mut fusion = Self {
             use_counts: HashMap::new(),
             defs: HashMap::with_capacity(ops.len()),
             backwards_computed: HashMap::new(),
             out_writers: HashMap::new(),
+            external: external.iter().copied().collect(),
         };
         fusion.scan_use_counts(ops);
         fusion.scan_defs(ops);
@@ -58,7 +67,7 @@ impl<F: Field> MulAddFusion<F> {
     }
 
     fn is_backwards(&self, idx: usize, out: &WitnessId) -> bool {
-        self.def_idx(out).is_some_and(|i| i < idx)
+        self.external.contains(out) || self.def_idx(out).is_some_and(|i| i < idx)
     }
 
     /// Inserts a def unless the witness is already a Const (connect aliasing).
@@ -224,7 +233,10 @@ impl<F: Field> MulAddFusion<F> {
         // The fused op no longer constrains `mul_result`. That is only sound when the mul is
         // its sole writer (not aliased through `connect` to a public input, a constant or
         // another op's output) and is emitted before the add that consumes it.
-        if self.out_writers.get(&mul_result).copied().unwrap_or(0) != 1 || mul_idx >= add_idx {
+        if self.out_writers.get(&mul_result).copied().unwrap_or(0) != 1
+            || self.external.contains(&mul_result)
+            || mul_idx >= add_idx
+        {
             return None;
         }
 
